@@ -15,20 +15,79 @@ pub struct C12;
 
 const SIZES: [usize; 12] = [1, 2, 3, 63, 64, 65, 127, 128, 129, 200, 257, 40];
 
+/// Soft-max output with several exactly equal maxima (zero output weights => the uniform
+/// distribution for every input). Whatever the tie-breaking convention of arg-max is, it picks
+/// ONE class per prediction, and since all predictions are identical it picks the same class c
+/// for every sample: the accuracy must equal the frequency of some single class among the
+/// targets. (Counting every tied class as a hit would give 1.0.)
+fn ties_case(seed: u64, idx: u64) -> Out {
+    let mut rng = Rng::stream(seed, "ties", idx);
+    let classes = rng.range(2, 5);
+    let n = *rng.pick(&[3usize, 6, 10, 63, 64, 65, 130]);
+    let hidden = rng.range(1, 4);
+    let cfg = NetCfg::plain(
+        Sh::Flat(rng.range(1, 4)),
+        vec![LCfg::Dense { n: hidden, act: Act::Tanh, bias: true, dropout: None }, LCfg::Dense { n: classes, act: Act::Softmax, bias: true, dropout: None }],
+    );
+    let mut params = gen_params(&cfg, &mut rng, -1.0, 1.0).unwrap();
+    let zeros = vec![0.0f32; params[1].count()];
+    params[1].set_flat(&zeros);
+    let mut out = Out::new(format!("ties classes{} n{} {}", classes, n, cfg.describe()));
+    let mut net = match build(&cfg, Some(&params)) {
+        Ok(n) => n,
+        Err(m) => {
+            out.inconclusive = Some(format!("cannot build tie network: {}", m));
+            return out;
+        }
+    };
+    net.set_objective(lib_obj(Obj::CE), None);
+    let xs: Vec<Tensor> = (0..n).map(|_| tensor_of(cfg.input, &(0..cfg.input.count()).map(|_| rng.f32_in(-1.0, 1.0)).collect::<Vec<f32>>())).collect();
+    // targets spread over at least two classes
+    let labels: Vec<usize> = (0..n).map(|i| if i < 2 { i % classes } else { rng.range(0, classes - 1) }).collect();
+    let ts: Vec<Tensor> = labels.iter().map(|k| Tensor::single((0..classes).map(|i| if i == *k { 1.0 } else { 0.0 }).collect())).collect();
+    let xr: Vec<&Tensor> = xs.iter().collect();
+    let tr: Vec<&Tensor> = ts.iter().collect();
+    // the construction must really produce tied maxima
+    let p0 = flat(&net.predict(&xs[0]));
+    if !p0.iter().all(|v| v.to_bits() == p0[0].to_bits()) {
+        out.nontrivial = false;
+        return out;
+    }
+    let (r, _) = in_cached_pool(2, || guard(|| net.validate(&xr, &tr, 0.1)));
+    match r {
+        Err(m) => out.viol("aggregate:ties:validate-panic", format!("validate panicked on tied soft-max outputs: {}", short(&m, 160)), J::Null),
+        Ok((_, acc)) => {
+            out.count("tied_argmax_validations", 1);
+            let freqs: Vec<f64> = (0..classes).map(|c| labels.iter().filter(|l| **l == c).count() as f64 / n as f64).collect();
+            if !freqs.iter().any(|f| (f - acc as f64).abs() <= (n as f64 + 4.0) * 2.0 * EPS32 + 1e-9) {
+                out.viol(
+                    "aggregate:validate-accuracy:argmax-ties",
+                    format!("uniform soft-max output over {} classes, {} samples with class frequencies {:?}: accuracy {:e} is not the frequency of any single class (arg-max picks one class)", classes, n, freqs, acc),
+                    J::obj().set("labels", J::usizes(&labels)).set("accuracy", J::f(acc as f64)),
+                );
+            }
+        }
+    }
+    out
+}
+
 impl Monitor for C12 {
     fn id(&self) -> &'static str {
         "C12"
     }
     fn gens(&self, tier: Tier) -> Vec<(&'static str, u64)> {
-        vec![("aggregate", tier.pick(8400, 168_000))]
+        vec![("aggregate", tier.pick(8400, 168_000)), ("ties", tier.pick(600, 12_000))]
     }
     fn rule(&self) -> &'static str {
-        "case i -> objective (i mod 7), data-set size from {1,2,3,40,63,64,65,127,128,129,200,257} (i/7 mod 12; the parallel chunk is 64), soft-max output or not, output width 1 or >1, tolerance log-uniform in [1e-6,0.5], pool of 1..16 threads; random network ending in a dense layer (dense/conv/deconv/pool before it). Targets are generated from the network's own predictions so that every component is clearly inside (|t-p| <= tol/2) or clearly outside (>= 2 tol + 0.01) the tolerance and arg-max ties do not occur. Oracle: harness-side aggregation over the library's own predict() and objective loss(): mean loss (f64, bound n*eps), accuracy by the stated rule; predict_batch(xs)[i] must be bit-equal to predict(xs[i]) in input order (also for 0 inputs), predict(x) bit-equal to the last activation of forward(x). Distinct = distinct (network, objective, size, tolerance) descriptors."
+        "case i -> objective (i mod 7), data-set size from {1,2,3,40,63,64,65,127,128,129,200,257} (i/7 mod 12; the parallel chunk is 64), soft-max output or not, output width 1 or >1, tolerance log-uniform in [1e-6,0.5], pool of 1..16 threads; random network ending in a dense layer (dense/conv/deconv/pool before it). Targets are generated from the network's own predictions so that every component is clearly inside (|t-p| <= tol/2) or clearly outside (>= 2 tol + 0.01) the tolerance and arg-max ties do not occur. Oracle: harness-side aggregation over the library's own predict() and objective loss(): mean loss (f64, bound n*eps), accuracy by the stated rule; predict_batch(xs)[i] must be bit-equal to predict(xs[i]) in input order (also for 0 inputs), predict(x) bit-equal to the last activation of forward(x). ties: soft-max outputs with exactly equal maxima (uniform distribution): the accuracy must equal the frequency of some single class among the targets, whatever the tie-breaking convention. Distinct = distinct (network, objective, size, tolerance) descriptors."
     }
     fn assumptions(&self) -> Vec<&'static str> {
         vec!["boundary semantics (|t-p| == tol, arg-max ties, NaN losses) are unspecified and not generated", "per-sample predict() and loss() are trusted here (they are the subject of C02/C06)"]
     }
     fn run(&self, gen: &str, seed: u64, idx: u64, _tier: Tier) -> Out {
+        if gen == "ties" {
+            return ties_case(seed, idx);
+        }
         let mut rng = Rng::stream(seed, gen, idx);
         let obj = OBJS[(idx % 7) as usize];
         let n = SIZES[((idx / 7) % 12) as usize];
